@@ -47,7 +47,14 @@ fn metric(r: &mut Report, rng: &mut Rng, per_class: usize) {
                 b[i / 8] = (b[i / 8] & !(1 << (7 - i % 8))) | (want << (7 - i % 8));
             }
             let (ia, ib) = (Id::from(a), Id::from(b));
-            let d = ia.distance(&ib) as u32;
+            let d = match catch_unwind(AssertUnwindSafe(|| ia.distance(&ib) as u32)) {
+                Ok(d) => d,
+                Err(_) => {
+                    let _ = crate::take_panics();
+                    r.violation("metric/panic", "Id::distance panicked", json!({"class":"metric","a":crate::bencode::hex(&a),"b":crate::bencode::hex(&b),"first_differing_bit":class}), json!({}));
+                    continue;
+                }
+            };
             let want = 160 - common_prefix_bits(&a, &b);
             let case = json!({"class":"metric","a":crate::bencode::hex(&a),"b":crate::bencode::hex(&b)});
             if d != want {
@@ -62,7 +69,14 @@ fn metric(r: &mut Report, rng: &mut Rng, per_class: usize) {
             // XOR-order consistency with a third id
             let t: [u8; 20] = if rng.bool() { rng.array() } else { let mut t = a; t[rng.usize(20)] ^= 1 << rng.usize(8); t };
             let it = Id::from(t);
-            let (da, db) = (ia.distance(&it), ib.distance(&it));
+            let (da, db) = match catch_unwind(AssertUnwindSafe(|| (ia.distance(&it), ib.distance(&it)))) {
+                Ok(x) => x,
+                Err(_) => {
+                    let _ = crate::take_panics();
+                    r.violation("metric/panic", "Id::distance panicked", json!({"class":"metric","a":crate::bencode::hex(&a),"t":crate::bencode::hex(&t)}), json!({}));
+                    continue;
+                }
+            };
             if da < db && xor_cmp(&a, &b, &t) != std::cmp::Ordering::Less {
                 r.violation("metric/xor-order", "distance(a,t)<distance(b,t) but a^t >= b^t", json!({"class":"metric","a":crate::bencode::hex(&a),"b":crate::bencode::hex(&b),"t":crate::bencode::hex(&t)}), json!({}));
             }
